@@ -1821,9 +1821,11 @@ class Client:
                                             message.dup, message.info, message.properties)
 
                     # remove from inflight messages so it will be send after a connection is made
-                    if rc == MQTTErrorCode.MQTT_ERR_NO_CONN:
+                    # (also when the connection was lost while writing this very packet)
+                    if rc != MQTTErrorCode.MQTT_ERR_SUCCESS:
                         self._inflight_messages -= 1
                         message.state = mqtt_ms_publish
+                        rc = MQTTErrorCode.MQTT_ERR_NO_CONN
 
                     message.info.rc = rc
                     return message.info
